@@ -493,6 +493,36 @@ func runC16(c *mon.Ctx) {
 				f.ModificationTime = f.ModificationTime.AddDate(2001, 0, 0)
 			}
 			name = fmt.Sprintf("generated-%d-%s(%d glyphs)", cf.font, info.Kind, info.NGlyphs)
+			if cf.font%4 == 0 {
+				// lookups that name a mark filtering set although the font has
+				// no GDEF table (Subset accepts such fonts)
+				if f.Gsub == nil && f.NumGlyphs() > 3 {
+					f.Gsub = &gtab.Info{
+						ScriptList:  gtab.ScriptListInfo{language.MustParse("und-Zzzz-x-dflt"): {Required: 0xFFFF, Optional: []gtab.FeatureIndex{0}}},
+						FeatureList: gtab.FeatureListInfo{{Tag: "liga", Lookups: []gtab.LookupIndex{0}}},
+						LookupList: gtab.LookupList{{Meta: &gtab.LookupMetaInfo{LookupType: 1},
+							Subtables: []gtab.Subtable{&gtab.Gsub1_1{Cov: map[glyph.ID]bool{1: true}, Delta: 1}}}},
+					}
+				}
+				for _, tb := range []*gtab.Info{f.Gsub, f.Gpos} {
+					if tb == nil {
+						continue
+					}
+					for _, l := range tb.LookupList {
+						l.Meta.LookupFlags |= gtab.UseMarkFilteringSet
+						l.Meta.MarkFilteringSet = 1
+					}
+				}
+				nl := 0
+				for _, tb := range []*gtab.Info{f.Gsub, f.Gpos} {
+					if tb != nil {
+						nl += len(tb.LookupList)
+					}
+				}
+				if nl > 0 {
+					k.Class("font:mark-filtering-set-without-gdef")
+				}
+			}
 			if cf.font%2 == 1 {
 				c16richLayout(c.Rand("layout", cf.font), f)
 				name += "+contextual-layout"
@@ -741,6 +771,6 @@ func runC16(c *mon.Ctx) {
 		}
 		k.Distinct("canary")
 	})
-	c.Require("cold-start-process", "font:cid-fd-blocks", "font:read-back:cid", "font:read-back:glyf", "font:contextual-layout", "canary-race-reported", "goroutines=2", "goroutines=64", "GOMAXPROCS=2", "GOMAXPROCS=16",
+	c.Require("cold-start-process", "font:mark-filtering-set-without-gdef", "font:cid-fd-blocks", "font:read-back:cid", "font:read-back:glyf", "font:contextual-layout", "canary-race-reported", "goroutines=2", "goroutines=64", "GOMAXPROCS=2", "GOMAXPROCS=16",
 		"overlap:Write+Write", "overlap:Write+Subset", "overlap:MakeGlyphNames+Layout", "overlap:Apply(GSUB)+ExplainGsub", "overlap:Subset+Layout")
 }
